@@ -27,6 +27,12 @@ CLAIMED = {
     "C27": ("Coq proof (value after any call history = base x factor exactly once; idempotence) + differential correspondence over call histories",
             "C27_history_value / C27_idempotent for all components, flag sets and histories; C27_unrepaired_refuted records the defect; the real spec is costed 1-3 times with random flags and every value compared exactly with the model.",
             "Coq kernel; explicit values, dyadic scales (exact float arithmetic); hwcomponents bypassed"),
+    "C30": ("Coq proof (closed forms = explicit route enumeration, by induction on the fanout, any stride) + exhaustive correspondence over the property's whole quantifier range",
+            "C30_mesh_multicast / C30_mesh_unicast / C30_switch for every fanout and stride; the real per_loop_transfer_cost is run on fanout 1..32 x stride 1..8 x 3 volumes x both relevancies x both topologies and compared with the model and with explicit routing. Degenerate fanout 1 is known finding F6 (C30_fanout1_refuted).",
+            "Coq kernel; non-distributed source only; per-unit-volume model (linearity in volume checked by correspondence)"),
+    "C32": ("Coq proof (index-tagged collection is order-independent: for every permutation of arrivals) + differential runs of the real runner with hook-forced completion orders",
+            "C32_list / C32_dict hold for every arrival permutation, i.e. every worker count and completion order; the real parallel() is run with 1-16 workers, random sleeps and hook H1 forcing reversed/rotated/shuffled submission and arrival orders. Partial: process pools, pickling and OS scheduling are runtime behaviour outside the model.",
+            "Coq kernel; joblib abstracted as exactly-once delivery in arbitrary order; hook H1"),
 }
 
 PENDING_REASON = "check not built yet in this round (planned, see DESIGN.md section 6); not claimed until its proof and correspondence exist"
@@ -81,7 +87,7 @@ def main():
 
 
 NA = {}
-HOOK_COMMITS = []
+HOOK_COMMITS = ["5bbb6bd"]
 
 if __name__ == "__main__":
     main()
